@@ -61,14 +61,14 @@ func buildLibEnc(s *exact.Shape, ic IdxCfg, closed bool, enc FEnc) libShape {
 		r := geometry.Rect{Min: sp(s.Pts[0]), Max: sp(s.Pts[1])}
 		l.g, l.obj = r, geojson.NewRect(r)
 	case exact.KLine:
-		ln := geometry.NewLine(sps(s.Pts, false), ic.Opts())
+		ln := newLineOwn(sps(s.Pts, false), ic.Opts())
 		l.g, l.obj = ln, geojson.NewLineString(ln)
 	default:
 		var hs [][]geometry.Point
 		for _, h := range s.Holes {
 			hs = append(hs, sps(h, closed))
 		}
-		p := geometry.NewPoly(sps(s.Ext, closed), hs, ic.Opts())
+		p := newPolyOwn(sps(s.Ext, closed), hs, ic.Opts())
 		l.g, l.obj = p, geojson.NewPolygon(p)
 	}
 	if enc.Move {
